@@ -11,7 +11,7 @@ void cli_init(const char *topdom, int uid, int codec, int maxlen, int qtype, cha
 	struct sockaddr_in *a = (struct sockaddr_in *)&nameserv;
 	client_init();
 	strncpy(cli_topdomain_buf, topdom, sizeof(cli_topdomain_buf) - 1);
-	topdomain = cli_topdomain_buf;
+	client_set_topdomain(cli_topdomain_buf);	/* the client's own setter, as iodine.c calls it */
 	userid = uid;
 	userid_char = "0123456789abcdef"[uid & 15];
 	userid_char2 = "0123456789ABCDEF"[uid & 15];
@@ -215,7 +215,7 @@ void cli_prepare_handshake(const char *topdom, const char *pass, int qtype, char
 	struct sockaddr_in *a = (struct sockaddr_in *)&nameserv;
 	client_init();
 	strncpy(cli_topdomain_buf, topdom, sizeof(cli_topdomain_buf) - 1);
-	topdomain = cli_topdomain_buf;
+	client_set_topdomain(cli_topdomain_buf);	/* the client's own setter, as iodine.c calls it */
 	{
 		/* iodine.c keeps the password in a zero-filled 33-byte buffer */
 		static char pwbuf[33];
